@@ -1,6 +1,11 @@
 """Which harness steps decide which property (read by /verif/check)."""
 
 PYSTEPS = {}
+try:
+    import steps_start
+    PYSTEPS["c07_start"] = steps_start.c07_start
+except Exception as _e:  # keep the registry importable if a step module is broken; the step then fails loudly
+    steps_start = None
 
 def _s(pkg, phase=None, **kw):
     d = dict(pkg=pkg, bin=kw.pop("bin", pkg), phase=phase)
@@ -86,7 +91,9 @@ PROPS = {
     "C07": dict(
         level="exploration",
         technique="bounded-exhaustive enumeration of all small environment blocks x keys and argv lists through the real lookup/iterator code (hook H2); exec of real no-libc binaries in each link mode with enumerated argv/envp shapes",
-        steps=[_s("h-env", None, name="env-inproc")],
+        steps=[_s("h-env", None, name="env-inproc"),
+               dict(kind="py", fn="c07_start", name="start-e2e", pkg="probe-start", bin="probe-start", phase=None,
+                    builds=(steps_start.SETUP_BUILDS if steps_start else []))],
         assumptions=["keys that are empty or contain '=' are not judged (POSIX names cannot contain '=')",
                      "vDSO-vs-syscall clock agreement is sampled, not enumerated"],
     ),
@@ -105,5 +112,15 @@ PROPS = {
         steps=[_s("h-fd", "c12")],
         assumptions=["a descriptor handed to Command via Stdio::RawFd is consumed by spawn (closing it is accepted)",
                      "short transfer counts, munmap failures and triples of faults are not enumerated"],
+    ),
+
+    "C16": dict(
+        level="fault_enumeration",
+        technique="answer-script enumeration within a deviation budget against an in-process model kernel (syscall seam) for the real stream/listener code; exhaustive small-domain enumeration of fd-passing cases on the real kernel with guard-paged control buffers; model-kernel conformance pass; one sampled bulk transfer",
+        steps=[_s("h-net", "model"), _s("h-net", "cmsg"), _s("h-net", "cmsg", profile="nochk", name="cmsg-nochk"),
+               _s("h-net", "conformance"), _s("h-net", "bulk")],
+        assumptions=["the model kernel only gives answers Linux gives for a single-owner stream; each answer kind is witnessed on the real kernel first (conformance step)",
+                     "one connection and one data direction per scenario; payloads <= 5 bytes and FIFO capacities <= 16 in the enumerated part; the 8 MiB bulk transfer is sampled",
+                     "EPIPE/SIGPIPE, RST, lasting backlog overflow and errno injection are outside the model (errno injection belongs to C12)"],
     ),
 }
